@@ -1,1 +1,221 @@
--- property theorems of C07 (not built yet)
+/-
+  C07 — retrieval set-up depends only on current settings; updates touch only fitted parameters.
+
+  The theorems are about `Taurex.OptimizerSM.step` / `run` / `compile` / `updateModel` / `fitNames` / `fitValues`,
+  the same definitions `driver_c07` executes against `taurex.optimizer.optimizer.Optimizer` (harness/c07.py).
+  Names `ν` are any type with decidable equality; values `α` any carrier with the operations the code uses
+  (the structural theorems need no real analysis); `writeback_id` is over ℝ.
+
+  `WF s` : parameter names are unique across the model and observation tables (Python dict keys within a table;
+  the harness keeps the two tables disjoint — with a shared name the observation parameter silently inherits the
+  model parameter's default prior, which is outside what the property describes).
+-/
+import Proofs.C07Real
+
+namespace Taurex.C07
+open Taurex.Priors Taurex.OptimizerSM
+
+section
+variable {ν α : Type} [DecidableEq ν] [LT α] [DecidableLT α] [OfNat α 0] [Mul α] [Transc α]
+
+/-- **History freedom.**  After *any* operation sequence from *any* well-formed state, a final `compile_params`
+    leaves exactly the view (`fitting_parameters` snapshots in order, `fitting_priors`, `derived_parameters`) and the
+    outcome (ok / ValueError) that the specification `implied` computes from the current settings alone
+    (tables, derived flags, user-set priors): nothing of an earlier compilation survives. -/
+theorem compile_history_free (init : St ν α) (hwf : WF init) (ops : List (Op ν α)) :
+    (view (run init (ops ++ [.compile])), (step (run init ops) .compile).2) = implied (settings (run init ops)) := by
+  rw [run_append]
+  simp only [run]
+  exact compile_eq_implied (run init ops) (WF_run init ops hwf)
+
+/-- what `implied` says about names and order: the fitted parameters, model table first, then the observation's,
+    each in table order -/
+theorem implied_names_order (σ : Settings ν α) (hok : (implied σ).2 = .ok) :
+    (implied σ).1.entries.map (·.name) =
+      (σ.model.filter (·.fit)).map (·.name) ++ (σ.obs.filter (·.fit)).map (·.name) := by
+  have key : ∀ (o : Owner) (ps : List (Param ν α)) (rows : List (Entry ν α × Prior α)),
+      impliedRows σ.userPriors o ps = some rows →
+      (rows.map (·.1)).map (·.name) = (ps.filter (·.fit)).map (·.name) := by
+    intro o ps
+    induction ps with
+    | nil => intro rows h; simp [impliedRows] at h; subst h; rfl
+    | cons p ps ih =>
+      intro rows h
+      unfold impliedRows at h
+      by_cases hf : p.fit = true
+      · simp only [hf, if_true] at h
+        cases hr : impliedRow σ.userPriors o p with
+        | none => simp [hr] at h
+        | some r =>
+          cases hi : impliedRows σ.userPriors o ps with
+          | none => simp [hr, hi] at h
+          | some rs =>
+            simp only [hr, hi, Option.some.injEq] at h
+            subst h
+            have hn : r.1.name = p.name := by
+              unfold impliedRow at hr
+              cases hg : tget σ.userPriors p.name with
+              | some pr => simp [hg] at hr; rw [← hr]; rfl
+              | none =>
+                simp only [hg] at hr
+                cases hd : defaultPrior p.mode p.b0 p.b1 with
+                | none => simp [hd] at hr
+                | some pr => simp [hd] at hr; rw [← hr]; rfl
+            simp [List.filter_cons, hf, hn, ih rs hi]
+      · simp only [hf] at h
+        simp [List.filter_cons, hf, ih rows h]
+  unfold implied at hok ⊢
+  cases hm : impliedRows σ.userPriors Owner.model σ.model with
+  | none => simp [hm] at hok
+  | some rm =>
+    simp only [hm] at hok ⊢
+    cases ho : impliedRows σ.userPriors Owner.obs σ.obs with
+    | none => simp [ho] at hok
+    | some ro =>
+      simp only [ho, List.map_append]
+      rw [key _ _ rm hm, key _ _ ro ho]
+
+/-- **Consistent spaces (names).**  Right after a successful compilation the reported name of every row carries the
+    `log_` prefix exactly when the prior *of that row* is a log-space prior — the same prior whose space
+    `fit_values` / `fit_boundaries` report in and whose `prior()` `update_model` applies. -/
+theorem spaces_consistent_names (s : St ν α) (hwf : WF s) (hok : (step s .compile).2 = .ok) :
+    fitNames (step s .compile).1 = some (impliedNames (view (step s .compile).1)) :=
+  fitNames_after_compile s hwf hok
+
+/-- **Frame condition of `update_model`.**  A successful update leaves every mode, fit flag and bound of both tables,
+    the derived flags, both prior tables and the compiled view untouched, and every parameter that is not a compiled
+    row keeps its value. -/
+theorem update_frame (s : St ν α) (v : List α) (hok : (step s (.updateModel v)).2 = .ok) :
+    frame (step s (.updateModel v)).1 = frame s ∧
+    ∀ (o : Owner) (n : ν), (∀ e ∈ s.compiled, ¬ (e.owner = o ∧ e.name = n)) →
+      getValue (step s (.updateModel v)).1 o n = getValue s o n := by
+  simp only [step, updateModel] at hok ⊢
+  split
+  · rename_i h; simp [h] at hok
+  · exact ⟨frame_applyUpdate _ _ _ _, fun o n h => getValue_applyUpdate_untouched o n _ _ _ _ h⟩
+
+/-- **`update_model` sets exactly the fitted parameters.**  In any state reached from a well-formed one that
+    satisfies the compiled-view invariant (in particular from a fresh optimizer), a vector of the right length sets
+    the parameter of row `i` to `prior_i(v_i)` (`v_i` or `10 ** v_i`). -/
+theorem update_sets_fitted (init : St ν α) (hwf : WF init) (hinv : Inv init) (ops : List (Op ν α)) (v : List α)
+    (hlen : v.length = (run init ops).compiled.length) :
+    let s := run init ops
+    (step s (.updateModel v)).2 = .ok ∧
+    ∀ epx ∈ s.compiled.zip (s.compiledPriors.zip v),
+      getValue (step s (.updateModel v)).1 epx.1.owner epx.1.name = some (epx.2.1.back epx.2.2) := by
+  intro s
+  obtain ⟨_, hk, hex⟩ := Inv_run ops init hwf hinv
+  simp only [step, updateModel]
+  have : ¬ v.length ≠ s.compiled.length := by simpa using hlen
+  simp only [this, if_false, true_and]
+  exact getValue_applyUpdate_set s.compiled s s.compiledPriors v hk hex
+
+/-- a vector of the wrong length is a `ValueError` and changes nothing -/
+theorem update_len_error (s : St ν α) (v : List α) (h : v.length ≠ s.compiled.length) :
+    step s (.updateModel v) = (s, .valueError) := by
+  simp [step, updateModel, h]
+
+/-- **Unknown names are errors.**  Every operation that names a parameter found in neither table (for the derived
+    operations: in neither derived table) returns an error and leaves the state as it was. -/
+theorem unknown_is_error (s : St ν α) (n : ν) (hm : n ∉ names s.model) (ho : n ∉ names s.obs)
+    (hdm : n ∉ s.dmodel.map (·.name)) (hdo : n ∉ s.dobs.map (·.name)) (m : String) (a b : α) (p : Prior α) :
+    step s (.enableFit n) = (s, .keyError) ∧ step s (.disableFit n) = (s, .keyError) ∧
+    step s (.setMode n m) = (s, .keyError) ∧ step s (.setBoundary n a b) = (s, .keyError) ∧
+    step s (.setFactorBoundary n a b) = (s, .keyError) ∧ step s (.setPrior n p) = (s, .valueError) ∧
+    step s (.enableDerived n) = (s, .keyError) ∧ step s (.disableDerived n) = (s, .keyError) := by
+  have h1 : hasName s.model n = false := (hasName_false_iff _ _).2 hm
+  have h2 : hasName s.obs n = false := (hasName_false_iff _ _).2 ho
+  have h3 : hasDerived s.dmodel n = false := by
+    cases h : hasDerived s.dmodel n
+    · rfl
+    · exact absurd ((hasDerived_iff _ _).1 h) hdm
+  have h4 : hasDerived s.dobs n = false := by
+    cases h : hasDerived s.dobs n
+    · rfl
+    · exact absurd ((hasDerived_iff _ _).1 h) hdo
+  simp [step, withParam, withDerived, ownerOf, table, h1, h2, h3, h4]
+
+/-- the compiled-view invariant holds along every history of a fresh optimizer: rows and priors pair up, rows are
+    distinct and refer to existing parameters (so `update_model`'s zip never truncates) -/
+theorem compiled_invariant (model obs : List (Param ν α)) (dm dob : List (Derived ν))
+    (hwf : WF (initSt model obs dm dob)) (ops : List (Op ν α)) : Inv (run (initSt model obs dm dob) ops) :=
+  Inv_run ops _ hwf (by simp [Inv, initSt, keys])
+
+end
+
+section
+variable {ν : Type} [DecidableEq ν]
+
+/-- **Write-back identity** (over ℝ).  If `fit_values` can be reported at all (every log-space row has a positive
+    value), writing the reported vector back with `update_model` succeeds and changes nothing: values are reported in
+    the space the update transforms from (`10 ^ log10 v = v`). -/
+theorem writeback_id (init : St ν ℝ) (hwf : WF init) (hinv : Inv init) (ops : List (Op ν ℝ)) (v : List ℝ)
+    (hv : fitValues (run init ops) = some v) :
+    step (run init ops) (.updateModel v) = (run init ops, .ok) := by
+  have hw := WF_run init ops hwf
+  obtain ⟨hl, _, _⟩ := Inv_run ops init hwf hinv
+  have hlen := fitValuesAux_length _ _ _ v hl hv
+  simp only [step, updateModel]
+  have : ¬ v.length ≠ (run init ops).compiled.length := by simpa using hlen
+  simp only [this, if_false]
+  rw [applyUpdate_writeback _ hw _ _ v hv]
+
+end
+
+/-! ### non-vacuity: a state with two model parameters (one log), one observation parameter, one derived parameter -/
+
+noncomputable def exInit : St String ℝ :=
+  initSt [⟨"T", .linear, true, 100, 2000, 1500⟩, ⟨"H2O", .log, true, 1, 100, 10⟩]
+         [⟨"Offset_1", .linear, false, -1, 1, 0⟩] [⟨"mu", true⟩] []
+
+example : WF exInit := by
+  simp [WF, exInit, initSt, names]
+
+example : Inv exInit := by simp [Inv, exInit, initSt, keys]
+
+/-- the specification is not trivially `ValueError`: both rows get priors, the second one in log space -/
+example : (implied (settings exInit)).2 = .ok ∧ (implied (settings exInit)).1.entries.length = 2 ∧
+    (implied (settings exInit)).1.priors.map Prior.mode = [.linear, .log] ∧
+    (implied (settings exInit)).1.derived = ["mu"] := by
+  simp [implied, settings, exInit, initSt, impliedRows, impliedRow, tget, defaultPrior, mkUniform, mkLogUniformLin,
+    mkLogUniform, log10?, entryOf, derivedOf, Prior.mode]
+
+/-- a history that changes a setting after a first compilation and enables the observation parameter -/
+example : (run exInit [.compile, .setBoundary "T" 500 1000, .enableFit "Offset_1"]).compiled.length = 2 ∧
+    ((run exInit [.compile, .setBoundary "T" 500 1000, .enableFit "Offset_1"]).model.map (·.b0)) = [500, 1] ∧
+    ((run exInit [.compile, .setBoundary "T" 500 1000, .enableFit "Offset_1"]).obs.map (·.fit)) = [true] := by
+  simp [run, step, compile, compileTable, exInit, initSt, tget, tset, defaultPrior, mkUniform, mkLogUniformLin, mkLogUniform,
+    log10?, entryOf, derivedOf, withParam, ownerOf, hasName, table, setTable, modifyParam]
+
+/-- an unknown name exists for `unknown_is_error` -/
+example : "nope" ∉ names exInit.model ∧ "nope" ∉ names exInit.obs := by
+  simp [exInit, initSt, names]
+
+/-- `writeback_id` is not vacuous: the reported vector exists after a compilation of `exInit` -/
+example : ∃ v, fitValues (run exInit [.compile]) = some v ∧ v.length = 2 := by
+  refine ⟨[1500, Real.log 10 / Real.log 10], ?_, rfl⟩
+  simp [run, step, compile, compileTable, exInit, initSt, tget, tset, defaultPrior, mkUniform, mkLogUniformLin, mkLogUniform,
+    log10?, entryOf, derivedOf, fitValues, fitValuesAux, reportValue, getValue, table, Prior.mode]
+
+/-! ### regression witness: the pre-fix prior cache (F11) is history dependent -/
+
+/-- With the pinned `compile_params` (defaults cached in `_fit_priors`), the 3-operation history
+    compile / set_boundary / compile ends with a stale prior: the view differs from what the settings imply.
+    The same trace is `corpus/C07/stale_default_prior_after_set_boundary.json`, replayed on the real code on every run. -/
+theorem stale_prior_witness_pinned :
+    let init : St String ℝ := initSt [⟨"x", .linear, true, 0, 1, 0.5⟩] [] [] []
+    let ops : List (Op String ℝ) := [.compile, .setBoundary "x" 2 3]
+    view (runPinned init (ops ++ [.compile])) ≠ (implied (settings (runPinned init ops))).1 ∧
+    view (run init (ops ++ [.compile])) = (implied (settings (run init ops))).1 := by
+  intro init ops
+  constructor
+  · intro h
+    have hp := congrArg View.priors h
+    simp [init, ops, runPinned, stepPinned, compilePinned, step, compileTable, initSt, tget, tset, defaultPrior, mkUniform,
+      entryOf, derivedOf, withParam, ownerOf, hasName, table, setTable, modifyParam, view, implied, settings,
+      impliedRows, impliedRow, pyMin, pyMax] at hp
+    norm_num at hp
+  · have := compile_history_free init (by simp [WF, init, initSt, names]) ops
+    exact congrArg Prod.fst this
+
+end Taurex.C07
